@@ -85,6 +85,16 @@ CHECKS["C02"] = (
     "Assumes TLC, the 1e-9 fixed-point projection and the typed NIST table (cross-checked once against chem.txt, "
     "S average corrected by hand). Named modifications are limited to a hand vocabulary with a-priori compositions; "
     "all other Unimod entries are covered through their tabulated masses.", "DESIGN.md §6 C02")
+CHECKS["C03"] = (
+    "TLA+ relational check in Trace_Mass (mass of the returned composition computed by TLC from the independent "
+    "Nist table, plus the reported delta, against the returned mass) over recorded mass()/comp_mass()/comp(estimate) "
+    "calls and Unimod/PSI-MOD table sweeps; reference laws in MC_Mass",
+    "For every recorded pair of calls with identical options TLC computes the mass of the composition the library "
+    "returned (exact fixed point, counts to 1e-8, independent atomic masses) and compares it with the mass the library "
+    "returned, in both modes and for all 18 ion types; vocabulary rows are judged only when the spec's predicates "
+    "(OnlyCHNOPS for average mode, RowSelfConsistent for PSI-MOD) hold on the raw table row.",
+    "Assumes TLC and the projection (counts quantised to 1e-8, masses to 1e-9). Elements outside the independent "
+    "table are not judged.", "DESIGN.md §6 C03")
 NOT_YET = "check not built yet in this round (planned with the TLA+ technique, see DESIGN.md §6)"
 
 
